@@ -24,7 +24,10 @@ import (
 	"verif/harness/hx"
 )
 
-func init() { Registry["C19"] = genC19 }
+func init() {
+	Registry["C19"] = genC19
+	SubRegistry["c19-history"] = subC19History
+}
 
 var (
 	ethBridge = common.HexToAddress("0x00000000000000000000000000000000000b41d6")
@@ -44,13 +47,19 @@ type ethRig struct {
 	order   []int // adaptor endpoint index -> node index
 }
 
-func newEthRig(n int) (*ethRig, error) {
+func newEthRig(n int) (*ethRig, error) { return newEthRigWS(n, n) }
+
+// n RPC endpoints of which only the first nws also offer a websocket endpoint
+func newEthRigWS(n, nws int) (*ethRig, error) {
 	r := &ethRig{}
 	var urls []string
 	for i := 0; i < n; i++ {
 		nd := doubles.NewEthNode(ethChainID, ethBridge, ethProxy, ethCR)
 		r.nodes = append(r.nodes, nd)
-		urls = append(urls, nd.HTTPURL, nd.WSURL)
+		urls = append(urls, nd.HTTPURL)
+		if i < nws {
+			urls = append(urls, nd.WSURL)
+		}
 	}
 	pk, err := crypto.GenerateKey()
 	if err != nil {
@@ -334,286 +343,353 @@ func genC19History(rng *hx.Rng, tier string, w *hx.Writer) {
 	if tier == "thorough" {
 		nh = 120
 	}
-	wouts := []int{0, 0, 0, 1, 2, 3, 6, 6, 6}
+	var jobs []*c12job
 	for it := 0; it < nh; it++ {
-		n := 1 + it%3
-		rig, err := newEthRig(n)
-		if err != nil {
-			w.Put(hx.Case{Entry: "-", Op: 0, Args: hx.L(), Impl: hx.E, Oracle: hx.Fail("rig", "the adaptor could not be connected: "+err.Error()), Tags: []string{"rig"}})
-			continue
-		}
-		chain := &doubles.Chain{Next: 7}
-		for _, nd := range rig.nodes {
-			nd.Chain = chain
-		}
-		node := func(e int) *doubles.EthNode { return rig.nodes[rig.order[e]] }
-		alive := make([]bool, n) // the judge's own book-keeping of who may have been switched off, and why
-		for i := range alive {
-			alive[i] = true
-		}
-		var evs, outs, problems []string
-		var tags []string
-		L := 3 + rng.Intn(4)
-		directed := it%4 == 1 // reconnect (after a failed attempt), a commit-reveal call, a burst
-		call := func(kind int, x, y *big.Int) error {
-			switch kind % 6 {
-			case 0:
-				return rig.adaptor.UpdateRandomness(&vss.Signature{Signature: append(word32(x), word32(y)...)})
-			case 1:
-				return rig.adaptor.DataReturn(&vss.Signature{Index: 2, RequestId: []byte{1}, Content: []byte("r"), Signature: append(word32(x), word32(y)...)})
-			case 2:
-				return rig.adaptor.RegisterGroupPubKey([5]*big.Int{x, y, x, y, x})
-			case 3:
-				return rig.adaptor.Commit(x, [32]byte{1})
-			case 4:
-				return rig.adaptor.Reveal(x, y)
+		arg := fmt.Sprintf("it=%d,seed=%d", it, rng.Intn(1<<30))
+		job := &c12job{c: hx.Case{Entry: "-", Op: 0, Args: hx.L(hx.B([]byte(arg))), Tags: []string{"history", "nt"}},
+			sub: "c19-history", arg: arg, timeout: 120 * time.Second, group: "adaptor"}
+		job.finish = func(out string) (string, bool) {
+			f := strings.Split(strings.TrimRight(out, "\n"), "\t")
+			if len(f) != 6 {
+				return hx.B([]byte(out)), false
 			}
-			return rig.adaptor.RegisterNewNode()
+			job.c.Entry, job.c.Args = f[0], f[2]
+			job.c.Op = atoi(f[1])
+			job.c.Tags = strings.Split(f[5], ",")
+			return f[3], f[4] == "ok"
 		}
-		for step := 0; step < L; step++ {
-			for e := 0; e < n; e++ {
-				node(e).Reset()
+		job.explain = func(class, out, panicLine string) (string, string) {
+			sc := "driver sub c19-history " + arg
+			switch class {
+			case "P":
+				return "adaptor-crash", "a goroutine of the adaptor panicked during the history (" + sc + "): " + panicLine
+			case "H":
+				return "adaptor-hang", "the history did not finish (" + sc + ")"
 			}
-			_, before := chain.Snapshot()
-			k := rng.Intn(11)
-			if directed && step < 3 {
-				k = []int{10, 5, 9}[step]
+			f := strings.Split(strings.TrimRight(out, "\n"), "\t")
+			if len(f) == 6 && strings.HasPrefix(f[4], "FAIL:") {
+				parts := strings.SplitN(f[4], ":", 3)
+				if len(parts) == 3 {
+					return parts[1], parts[2] + " (" + sc + ")"
+				}
 			}
-			switch {
-			case k == 10: // ---- the node drops its connections and connects again
-				failFirst := rng.Bool()
-				if err := rig.reconnect(failFirst); err != nil {
-					problems = append(problems, fmt.Sprintf("step %d: reconnecting failed: %v", step, err))
-				}
-				for i := range alive {
-					alive[i] = true
-				}
-				evs = append(evs, hx.L(hx.Zi(3)))
-				outs = append(outs, hx.L(hx.Zi(3)))
-				if failFirst {
-					tags = append(tags, "reconnect-after-failed-attempt")
-				} else {
-					tags = append(tags, "reconnect")
-				}
-			case k < 3: // ---- a read
-				rs := make([]int, n)
-				var zs []string
-				for e := 0; e < n; e++ {
-					rs[e] = []int{0, 0, 0, 1, 1, 1, 2}[rng.Intn(7)]
-					txt := ""
-					if rs[e] != 0 {
-						ts := c19ReadTexts[rs[e]]
-						txt = ts[rng.Intn(len(ts))]
-					}
-					node(e).ReadOutcome = func() string { return txt }
-					zs = append(zs, hx.Zi(rs[e]))
-				}
-				_, rerr := rig.adaptor.GroupSize()
-				served, wantServed := 0, false
-				if rerr == nil {
-					served = 1
-				}
-				for e := 0; e < n; e++ {
-					if alive[e] && rs[e] == 0 {
-						wantServed = true
-					}
-				}
-				if wantServed != (rerr == nil) {
-					problems = append(problems, fmt.Sprintf("step %d: the read returned error=%v although a healthy endpoint answered=%v", step, rerr, wantServed))
-				}
-				for e := 0; e < n; e++ {
-					if alive[e] && rs[e] == 2 {
-						alive[e] = false
-					}
-				}
-				evs = append(evs, hx.L(hx.Zi(0), hx.L(zs...)))
-				outs = append(outs, hx.L(hx.Zi(0), hx.Zi(served)))
-				tags = append(tags, "read")
-			case k < 8: // ---- one state-changing call
-				assign := make([]int, n)
-				var zs []string
-				for e := 0; e < n; e++ {
-					assign[e] = wouts[rng.Intn(len(wouts))]
-					txt := ""
-					if assign[e] != 0 {
-						ts := c19Texts[assign[e]]
-						txt = ts[rng.Intn(len(ts))]
-					}
-					node(e).TxOutcome = func(int) string { return txt }
-					zs = append(zs, hx.Zi(assign[e]))
-				}
-				ck := rng.Intn(6)
-				if directed && step == 1 {
-					ck = 3 + rng.Intn(2) // Commit / Reveal: the commit-reveal sessions of the NEW connection
-					for e := 0; e < n; e++ {
-						node(e).TxOutcome = func(int) string { return "" }
-						assign[e] = 0
-					}
-					zs = zs[:0]
-					for e := 0; e < n; e++ {
-						zs = append(zs, hx.Zi(0))
-					}
-				}
-				callErr := call(ck, randWord(rng), randWord(rng))
-				var sent []string
-				stopped := false
-				accepted := 0
-				for e := 0; e < n; e++ {
-					got := len(node(e).Txs())
-					want := 0
-					if alive[e] && !stopped {
-						switch assign[e] {
-						case 0, 1, 2:
-							want, stopped = 1, true
-							if assign[e] == 0 {
-								accepted++
-							}
-						case 6:
-							want = 1
-						case 3:
-							alive[e] = false
-						}
-					}
-					if got != want {
-						problems = append(problems, fmt.Sprintf("step %d: endpoint %d received the call %d time(s), want %d (outcomes %v)", step, e, got, want, assign))
-					}
-					if got > 0 {
-						sent = append(sent, hx.Zi(e))
-					}
-				}
-				if (callErr == nil) != (accepted == 1) {
-					problems = append(problems, fmt.Sprintf("step %d: the caller got error=%v although %d endpoint(s) accepted", step, callErr, accepted))
-				}
-				res := "N"
-				if callErr == nil {
-					res = hx.Zi(0)
-				} else {
-					msg := callErr.Error()
-					switch {
-					case strings.Contains(msg, "transaction failed"):
-						res = hx.Zi(1)
-					case strings.Contains(msg, "insufficient funds"):
-						res = hx.Zi(2)
-					case strings.Contains(msg, "failed to retrieve account nonce"):
-						res = hx.Zi(3)
-					case strings.Contains(msg, "not connecting to geth"):
-						res = "N"
-					default:
-						res = hx.Zi(6)
-					}
-				}
-				_, after := chain.Snapshot()
-				nonce := "N"
-				if len(after) == len(before)+1 {
-					nonce = hx.Zi(int(after[len(after)-1]))
-				} else if len(after) != len(before) {
-					problems = append(problems, fmt.Sprintf("step %d: one call produced %d accepted transactions", step, len(after)-len(before)))
-				}
-				evs = append(evs, hx.L(hx.Zi(1), hx.L(zs...)))
-				outs = append(outs, hx.L(hx.Zi(1), hx.L(sent...), res, nonce))
-				tags = append(tags, "write")
-			default: // ---- a burst of k calls queued together; the nonce question takes 60 ms to answer
-				k := 2 + rng.Intn(3)
-				for e := 0; e < n; e++ {
-					node(e).NonceDelay = 60 * time.Millisecond
-				}
-				errs := make([]error, k)
-				var wg sync.WaitGroup
-				base := rng.Intn(6)
-				xs := make([]*big.Int, 2*k)
-				for i := range xs {
-					xs[i] = randWord(rng)
-				}
-				for i := 0; i < k; i++ {
-					wg.Add(1)
-					go func(i int) {
-						defer wg.Done()
-						errs[i] = call(base+i, xs[2*i], xs[2*i+1])
-					}(i)
-				}
-				wg.Wait()
-				for e := 0; e < n; e++ {
-					node(e).NonceDelay = 0
-				}
-				_, after := chain.Snapshot()
-				anyAlive := false
-				for _, a := range alive {
-					anyAlive = anyAlive || a
-				}
-				var ns []string
-				seen := map[uint64]bool{}
-				for _, x := range after[len(before):] {
-					ns = append(ns, hx.Zi(int(x)))
-					if seen[x] {
-						problems = append(problems, fmt.Sprintf("step %d: two transactions of the burst carry nonce %d", step, x))
-					}
-					seen[x] = true
-				}
-				if anyAlive {
-					if len(ns) != k {
-						problems = append(problems, fmt.Sprintf("step %d: %d calls were queued together, %d became accepted transactions", step, k, len(ns)))
-					}
-					for i, e := range errs {
-						if e != nil {
-							problems = append(problems, fmt.Sprintf("step %d: call %d of the burst returned %v", step, i, e))
-							break
-						}
-					}
-				}
-				evs = append(evs, hx.L(hx.Zi(2), hx.Zi(k)))
-				outs = append(outs, hx.L(hx.Zi(2), hx.L(ns...)))
-				tags = append(tags, "burst")
-			}
+			return "adaptor-history", "unexpected scenario output (" + sc + "): " + out
 		}
-		// the endpoints' final state is observed through one more call that every endpoint would accept
+		jobs = append(jobs, job)
+	}
+	runC12Jobs(jobs, w)
+}
+
+// one history on one adaptor; returns the case (run in a child process: a panic in one of the adaptor's
+// own goroutines cannot be recovered in-process)
+func c19OneHistory(rng *hx.Rng, it int) hx.Case {
+	wouts := []int{0, 0, 0, 1, 2, 3, 6, 6, 6}
+	var result hx.Case
+	w := caseSink{&result}
+	n := 1 + it%3
+	nws := n
+	if n > 1 && it%2 == 0 {
+		nws = 1 // more RPC endpoints than websocket endpoints
+	}
+	rig, err := newEthRigWS(n, nws)
+	if err != nil {
+		w.Put(hx.Case{Entry: "-", Op: 0, Args: hx.L(), Impl: hx.E, Oracle: hx.Fail("rig", "the adaptor could not be connected: "+err.Error()), Tags: []string{"rig"}})
+		return result
+	}
+	chain := &doubles.Chain{Next: 7}
+	for _, nd := range rig.nodes {
+		nd.Chain = chain
+	}
+	node := func(e int) *doubles.EthNode { return rig.nodes[rig.order[e]] }
+	alive := make([]bool, n) // the judge's own book-keeping of who may have been switched off, and why
+	for i := range alive {
+		alive[i] = true
+	}
+	var evs, outs, problems []string
+	var tags []string
+	L := 3 + rng.Intn(4)
+	directed := it%4 == 1 // reconnect (after a failed attempt), a commit-reveal call, a burst
+	call := func(kind int, x, y *big.Int) error {
+		switch kind % 6 {
+		case 0:
+			return rig.adaptor.UpdateRandomness(&vss.Signature{Signature: append(word32(x), word32(y)...)})
+		case 1:
+			return rig.adaptor.DataReturn(&vss.Signature{Index: 2, RequestId: []byte{1}, Content: []byte("r"), Signature: append(word32(x), word32(y)...)})
+		case 2:
+			return rig.adaptor.RegisterGroupPubKey([5]*big.Int{x, y, x, y, x})
+		case 3:
+			return rig.adaptor.Commit(x, [32]byte{1})
+		case 4:
+			return rig.adaptor.Reveal(x, y)
+		}
+		return rig.adaptor.RegisterNewNode()
+	}
+	broken := false
+	for step := 0; step < L && !broken; step++ {
 		for e := 0; e < n; e++ {
 			node(e).Reset()
 		}
 		_, before := chain.Snapshot()
-		closeErr := call(5, big.NewInt(1), big.NewInt(2))
-		_, after := chain.Snapshot()
-		firstAlive := -1
-		for e := 0; e < n; e++ {
-			if alive[e] && firstAlive < 0 {
-				firstAlive = e
-			}
+		k := rng.Intn(11)
+		if directed && step < 3 {
+			k = []int{10, 5, 9}[step]
 		}
-		var sent, zs []string
-		for e := 0; e < n; e++ {
-			got := len(node(e).Txs())
-			want := 0
-			if e == firstAlive {
-				want = 1
+		switch {
+		case k == 10: // ---- the node drops its connections and connects again
+			failFirst := rng.Bool()
+			if err := rig.reconnect(failFirst); err != nil {
+				problems = append(problems, fmt.Sprintf("step %d: after DisconnectAll and Connect a state-changing call that every endpoint would answer did not reach the endpoints as it should (%v)", step, err))
+				broken = true
 			}
-			if got != want {
-				problems = append(problems, fmt.Sprintf("after the history: endpoint %d received the closing call %d time(s), want %d (the first endpoint that never failed a nonce retrieval / closed its connection is %d)", e, got, want, firstAlive))
+			for i := range alive {
+				alive[i] = true
 			}
-			if got > 0 {
-				sent = append(sent, hx.Zi(e))
+			evs = append(evs, hx.L(hx.Zi(3)))
+			outs = append(outs, hx.L(hx.Zi(3)))
+			if failFirst {
+				tags = append(tags, "reconnect-after-failed-attempt")
+			} else {
+				tags = append(tags, "reconnect")
 			}
-			zs = append(zs, hx.Zi(0))
-		}
-		res, nonce := "N", "N"
-		if closeErr == nil {
-			res = hx.Zi(0)
-		}
-		if len(after) == len(before)+1 {
-			nonce = hx.Zi(int(after[len(after)-1]))
-		}
-		evs = append(evs, hx.L(hx.Zi(1), hx.L(zs...)))
-		outs = append(outs, hx.L(hx.Zi(1), hx.L(sent...), res, nonce))
-		rig.close()
-		oracle := "ok"
-		if len(problems) > 0 {
-			if len(problems) > 3 {
-				problems = problems[:3]
+		case k < 3: // ---- a read
+			rs := make([]int, n)
+			var zs []string
+			for e := 0; e < n; e++ {
+				rs[e] = []int{0, 0, 0, 1, 1, 1, 2}[rng.Intn(7)]
+				txt := ""
+				if rs[e] != 0 {
+					ts := c19ReadTexts[rs[e]]
+					txt = ts[rng.Intn(len(ts))]
+				}
+				node(e).ReadOutcome = func() string { return txt }
+				zs = append(zs, hx.Zi(rs[e]))
 			}
-			oracle = hx.Fail("adaptor-history", strings.Join(problems, "; "))
+			_, rerr := rig.adaptor.GroupSize()
+			served, wantServed := 0, false
+			if rerr == nil {
+				served = 1
+			}
+			for e := 0; e < n; e++ {
+				if alive[e] && rs[e] == 0 {
+					wantServed = true
+				}
+			}
+			if wantServed != (rerr == nil) {
+				problems = append(problems, fmt.Sprintf("step %d: the read returned error=%v although a healthy endpoint answered=%v", step, rerr, wantServed))
+			}
+			for e := 0; e < n; e++ {
+				if alive[e] && rs[e] == 2 {
+					alive[e] = false
+				}
+			}
+			evs = append(evs, hx.L(hx.Zi(0), hx.L(zs...)))
+			outs = append(outs, hx.L(hx.Zi(0), hx.Zi(served)))
+			tags = append(tags, "read")
+		case k < 8: // ---- one state-changing call
+			assign := make([]int, n)
+			var zs []string
+			for e := 0; e < n; e++ {
+				assign[e] = wouts[rng.Intn(len(wouts))]
+				txt := ""
+				if assign[e] != 0 {
+					ts := c19Texts[assign[e]]
+					txt = ts[rng.Intn(len(ts))]
+				}
+				node(e).TxOutcome = func(int) string { return txt }
+				zs = append(zs, hx.Zi(assign[e]))
+			}
+			ck := rng.Intn(6)
+			if directed && step == 1 {
+				ck = 3 + rng.Intn(2) // Commit / Reveal: the commit-reveal sessions of the NEW connection
+				for e := 0; e < n; e++ {
+					node(e).TxOutcome = func(int) string { return "" }
+					assign[e] = 0
+				}
+				zs = zs[:0]
+				for e := 0; e < n; e++ {
+					zs = append(zs, hx.Zi(0))
+				}
+			}
+			callErr := call(ck, randWord(rng), randWord(rng))
+			var sent []string
+			stopped := false
+			accepted := 0
+			for e := 0; e < n; e++ {
+				got := len(node(e).Txs())
+				want := 0
+				if alive[e] && !stopped {
+					switch assign[e] {
+					case 0, 1, 2:
+						want, stopped = 1, true
+						if assign[e] == 0 {
+							accepted++
+						}
+					case 6:
+						want = 1
+					case 3:
+						alive[e] = false
+					}
+				}
+				if got != want {
+					problems = append(problems, fmt.Sprintf("step %d: endpoint %d received the call %d time(s), want %d (outcomes %v)", step, e, got, want, assign))
+				}
+				if got > 0 {
+					sent = append(sent, hx.Zi(e))
+				}
+			}
+			if (callErr == nil) != (accepted == 1) {
+				problems = append(problems, fmt.Sprintf("step %d: the caller got error=%v although %d endpoint(s) accepted", step, callErr, accepted))
+			}
+			res := "N"
+			if callErr == nil {
+				res = hx.Zi(0)
+			} else {
+				msg := callErr.Error()
+				switch {
+				case strings.Contains(msg, "transaction failed"):
+					res = hx.Zi(1)
+				case strings.Contains(msg, "insufficient funds"):
+					res = hx.Zi(2)
+				case strings.Contains(msg, "failed to retrieve account nonce"):
+					res = hx.Zi(3)
+				case strings.Contains(msg, "not connecting to geth"):
+					res = "N"
+				default:
+					res = hx.Zi(6)
+				}
+			}
+			_, after := chain.Snapshot()
+			nonce := "N"
+			if len(after) == len(before)+1 {
+				nonce = hx.Zi(int(after[len(after)-1]))
+			} else if len(after) != len(before) {
+				problems = append(problems, fmt.Sprintf("step %d: one call produced %d accepted transactions", step, len(after)-len(before)))
+			}
+			evs = append(evs, hx.L(hx.Zi(1), hx.L(zs...)))
+			outs = append(outs, hx.L(hx.Zi(1), hx.L(sent...), res, nonce))
+			tags = append(tags, "write")
+		default: // ---- a burst of k calls queued together; the nonce question takes 60 ms to answer
+			k := 2 + rng.Intn(3)
+			for e := 0; e < n; e++ {
+				node(e).NonceDelay = 60 * time.Millisecond
+			}
+			errs := make([]error, k)
+			var wg sync.WaitGroup
+			base := rng.Intn(6)
+			xs := make([]*big.Int, 2*k)
+			for i := range xs {
+				xs[i] = randWord(rng)
+			}
+			for i := 0; i < k; i++ {
+				wg.Add(1)
+				go func(i int) {
+					defer wg.Done()
+					errs[i] = call(base+i, xs[2*i], xs[2*i+1])
+				}(i)
+			}
+			wg.Wait()
+			for e := 0; e < n; e++ {
+				node(e).NonceDelay = 0
+			}
+			_, after := chain.Snapshot()
+			anyAlive := false
+			for _, a := range alive {
+				anyAlive = anyAlive || a
+			}
+			var ns []string
+			seen := map[uint64]bool{}
+			for _, x := range after[len(before):] {
+				ns = append(ns, hx.Zi(int(x)))
+				if seen[x] {
+					problems = append(problems, fmt.Sprintf("step %d: two transactions of the burst carry nonce %d", step, x))
+				}
+				seen[x] = true
+			}
+			if anyAlive {
+				if len(ns) != k {
+					problems = append(problems, fmt.Sprintf("step %d: %d calls were queued together, %d became accepted transactions", step, k, len(ns)))
+				}
+				for i, e := range errs {
+					if e != nil {
+						problems = append(problems, fmt.Sprintf("step %d: call %d of the burst returned %v", step, i, e))
+						break
+					}
+				}
+			}
+			evs = append(evs, hx.L(hx.Zi(2), hx.Zi(k)))
+			outs = append(outs, hx.L(hx.Zi(2), hx.L(ns...)))
+			tags = append(tags, "burst")
 		}
-		impl := hx.L(outs...)
-		w.Put(hx.Case{Entry: "adaptor", Op: 1, Args: hx.L(hx.Zi(n), hx.Zi(7), hx.L(evs...)), Impl: impl, Oracle: oracle,
-			Tags: append([]string{"history", fmt.Sprintf("endpoints:%d", n), "nt"}, dedup(tags)...)})
 	}
+	if broken {
+		rig.close()
+		w.Put(hx.Case{Entry: "-", Op: 0, Args: hx.L(hx.Zi(n)), Impl: hx.E, Oracle: hx.Fail("adaptor-history", strings.Join(problems, "; ")),
+			Tags: append([]string{"history", fmt.Sprintf("endpoints:%d", n), "nt"}, dedup(tags)...)})
+		return result
+	}
+	// the endpoints' final state is observed through one more call that every endpoint would accept
+	for e := 0; e < n; e++ {
+		node(e).Reset()
+	}
+	_, before := chain.Snapshot()
+	closeErr := call(5, big.NewInt(1), big.NewInt(2))
+	_, after := chain.Snapshot()
+	firstAlive := -1
+	for e := 0; e < n; e++ {
+		if alive[e] && firstAlive < 0 {
+			firstAlive = e
+		}
+	}
+	var sent, zs []string
+	for e := 0; e < n; e++ {
+		got := len(node(e).Txs())
+		want := 0
+		if e == firstAlive {
+			want = 1
+		}
+		if got != want {
+			problems = append(problems, fmt.Sprintf("after the history: endpoint %d received the closing call %d time(s), want %d (the first endpoint that never failed a nonce retrieval / closed its connection is %d)", e, got, want, firstAlive))
+		}
+		if got > 0 {
+			sent = append(sent, hx.Zi(e))
+		}
+		zs = append(zs, hx.Zi(0))
+	}
+	res, nonce := "N", "N"
+	if closeErr == nil {
+		res = hx.Zi(0)
+	}
+	if len(after) == len(before)+1 {
+		nonce = hx.Zi(int(after[len(after)-1]))
+	}
+	evs = append(evs, hx.L(hx.Zi(1), hx.L(zs...)))
+	outs = append(outs, hx.L(hx.Zi(1), hx.L(sent...), res, nonce))
+	rig.close()
+	oracle := "ok"
+	if len(problems) > 0 {
+		if len(problems) > 3 {
+			problems = problems[:3]
+		}
+		oracle = hx.Fail("adaptor-history", strings.Join(problems, "; "))
+	}
+	impl := hx.L(outs...)
+	w.Put(hx.Case{Entry: "adaptor", Op: 1, Args: hx.L(hx.Zi(n), hx.Zi(7), hx.L(evs...)), Impl: impl, Oracle: oracle,
+		Tags: append([]string{"history", fmt.Sprintf("endpoints:%d", n), "nt"}, dedup(tags)...)})
+	return result
+}
+
+type caseSink struct{ c *hx.Case }
+
+func (s caseSink) Put(c hx.Case) { *s.c = c }
+
+func subC19History(arg string) string {
+	a := parseArg(arg)
+	rng := hx.NewRng(uint64(atoi(a["seed"]))*7919 + uint64(atoi(a["it"])))
+	c := c19OneHistory(rng, atoi(a["it"]))
+	if c.Oracle == "" {
+		c.Oracle = "ok"
+	}
+	return strings.Join([]string{c.Entry, fmt.Sprint(c.Op), c.Args, c.Impl, strings.ReplaceAll(c.Oracle, "\t", " "), strings.Join(c.Tags, ",")}, "\t")
 }
 
 func dedup(xs []string) []string {
